@@ -50,6 +50,8 @@ class Interp:
         self.noop = noop_prefixes
         self.fresh = 0
         self.lemma_uses = 0
+        self.owner = None
+        self.depth = 0
 
     # ---- expressions
     def expr(self, node, env):
@@ -86,6 +88,16 @@ class Interp:
                     return z3.IntVal(0)
                 return a % b
             return ("opaque", "binop")
+        if isinstance(node, ast.IfExp):
+            c = self.expr(node.test, env)
+            a, b = self.expr(node.body, env), self.expr(node.orelse, env)
+            if isinstance(c, bool):
+                return a if c else b
+            if isinstance(c, tuple) or isinstance(a, tuple) or isinstance(b, tuple):
+                return ("opaque", "ifexp")
+            a2 = z3.IntVal(a) if isinstance(a, int) else a
+            b2 = z3.IntVal(b) if isinstance(b, int) else b
+            return z3.If(c, a2, b2)
         if isinstance(node, ast.UnaryOp) and isinstance(node.op, ast.USub):
             v = self.expr(node.operand, env)
             return -v if not isinstance(v, tuple) else v
@@ -97,6 +109,15 @@ class Interp:
             return {ast.Lt: lambda: a < b, ast.LtE: lambda: a <= b, ast.Gt: lambda: a > b, ast.GtE: lambda: a >= b,
                     ast.Eq: lambda: a == b, ast.NotEq: lambda: a != b}[type(op)]()
         if isinstance(node, ast.Call):
+            name = self._callname(node)
+            if name in ("max", "min") and len(node.args) == 2 and not node.keywords:
+                a, b = self.expr(node.args[0], env), self.expr(node.args[1], env)
+                if not isinstance(a, tuple) and not isinstance(b, tuple):
+                    if isinstance(a, int) and isinstance(b, int):
+                        return max(a, b) if name == "max" else min(a, b)
+                    a2 = z3.IntVal(a) if isinstance(a, int) else a
+                    b2 = z3.IntVal(b) if isinstance(b, int) else b
+                    return z3.If(a2 >= b2, a2, b2) if name == "max" else z3.If(a2 <= b2, a2, b2)
             return ("opaque", "call")
         return ("opaque", type(node).__name__)
 
@@ -125,6 +146,33 @@ class Interp:
             return True
         if any(name.startswith(pre) for pre in self.noop):
             return True
+        if name.startswith("self.") and self.owner is not None and self.depth < 4:
+            # a helper of the same class whose body can be interpreted: inline it (arguments bound by position)
+            helper = inspect.getattr_static(self.owner, name[5:], None)
+            if helper is None and name[5:].startswith("__"):
+                helper = inspect.getattr_static(self.owner, "_" + self.owner.__name__ + name[5:], None)
+            is_static = isinstance(helper, staticmethod)
+            if is_static:
+                helper = helper.__func__
+            if helper is not None and inspect.isfunction(helper):
+                tree = ast.parse(textwrap.dedent(inspect.getsource(helper))).body[0]
+                inner = {self._callname(c) for c in ast.walk(tree) if isinstance(c, ast.Call)}
+                if not any(c.startswith("self.") or c in self.counter_calls for c in inner):
+                    return True   # formatting / logging helper: touches no counter and calls nothing of the object
+                formal = [a.arg for a in tree.args.args][(0 if is_static else 1):]
+                if len(formal) == len(call.args) and not call.keywords:
+                    env = dict(p.env)
+                    for f, a in zip(formal, call.args):
+                        env[f] = self.expr(a, p.env)
+                    self.depth += 1
+                    try:
+                        sub = self.block(tree.body, Path(env, p.counters, p.pc))
+                    finally:
+                        self.depth -= 1
+                    if len(sub) != 1:
+                        raise Unsupported(f"branching helper {name}")
+                    p.counters, p.pc = sub[0].counters, sub[0].pc
+                    return True
         return False
 
     def stmt(self, s, p):
@@ -169,10 +217,15 @@ class Interp:
             a = Path(p.env, p.counters, p.pc + [c])
             b = Path(p.env, p.counters, p.pc + [z3.Not(c)])
             return self.block(s.body, a) + self.block(s.orelse, b)
-        if isinstance(s, ast.For) and isinstance(s.iter, ast.Call) and self._callname(s.iter) == "range" and len(s.iter.args) == 1:
-            N = self.expr(s.iter.args[0], p.env)
+        if isinstance(s, ast.For) and isinstance(s.iter, ast.Call) and self._callname(s.iter) == "range" and len(s.iter.args) in (1, 2):
+            N = self.expr(s.iter.args[-1], p.env)
             if isinstance(N, tuple):
                 raise Unsupported("opaque loop bound")
+            if len(s.iter.args) == 2:   # range(a, b): b - a trips (the loop variable stays opaque to the body summary)
+                A = self.expr(s.iter.args[0], p.env)
+                if isinstance(A, tuple):
+                    raise Unsupported("opaque loop bound")
+                N = N - A
             # summarise: run the body once from symbolic counters
             self.fresh += 1
             base = {k: z3.Int(f"{k}@{self.fresh}") for k in p.counters}
@@ -223,5 +276,8 @@ def encode_method(fn, params, counter_calls, counters=("steps",)):
     src = textwrap.dedent(inspect.getsource(fn))
     tree = ast.parse(src).body[0]
     it = Interp(counter_calls)
+    mod = inspect.getmodule(fn)
+    qn = getattr(fn, "__qualname__", "").split(".")
+    it.owner = getattr(mod, qn[0], None) if len(qn) == 2 and mod is not None else None
     start = Path(dict(params), {k: z3.IntVal(0) for k in counters}, [])
     return it.block(tree.body, start), it
